@@ -106,6 +106,7 @@ pub fn c04(seed: u64) -> Vec<Scenario> {
         add(Tier::Quick, format!("close.against.{}", p.clone().lim().tag()), d, 400, 150, Box::new(t_close(pc.clone().lim(), false)));
         add(Tier::Quick, format!("fund.close.{}", p.tag()), d, 600, 150, Box::new(t_fund(pc.clone(), 0)));
         add(Tier::Quick, format!("fund.close.{}", p.clone().fees().tag()), d, 600, 150, Box::new(t_fund(pc.clone().fees(), 0)));
+        add(Tier::Quick, format!("fund.pclose.close.{}", p.tag()), d, 600, 150, Box::new(t_fund_pclose(pc.clone())));
         for (rn, ru) in [("healthy", 3u128), ("zero-equity", 7), ("bad-debt", 45)] {
             add(Tier::Quick, format!("close10x.{}.{}", rn, p.tag()), d, 400, 150, Box::new(t_close_regime(pc.clone(), ru)));
         }
@@ -145,5 +146,72 @@ pub fn c05(seed: u64) -> Vec<Scenario> {
     let p = P::new(prop, Buy, seed);
     add(Tier::Quick, format!("depwd.{}", p.clone().native().tag()), d, 400, 120, Box::new(t_depwd(p.clone().concrete_prefix().native())));
     add(Tier::Quick, format!("open.{}", p.clone().lev().fees().tag()), d, 800, 150, Box::new(t_open(p.clone().lev().fees())));
+    v
+}
+
+/// C06 / C07: liquidation templates with symbolic thresholds, oracle price and counter-trade size
+pub fn liq(prop: &'static str, seed: u64) -> Vec<Scenario> {
+    let lc = prop.to_lowercase();
+    let mut v: Vec<Scenario> = vec![];
+    let mut add = |tier: Tier, name: String, desc: &str, paths: u64, secs: u64, f: Box<dyn Fn()>| {
+        v.push(sc(prop, tier, &format!("{}.{}", lc, name), desc, paths, secs, f));
+    };
+    let d = "alice 10x, counter-trade in a seeded regime (shallow ~3% / boundary ~0% / deep negative equity), third party liquidates; maintenance ratio, liquidation fee, partial-liquidation ratio, oracle price and (where '.counter') the counter-trade size symbolic; the margin ratio as defined for liquidation is recomputed by the harness from Position, OutputAmount, OutputTwap, cumulative premium, SpotPrice and UnderlyingPrice observed before the call";
+    for side in [Buy, Sell] {
+        let p = P::new(prop, side.clone(), seed);
+        let pc = p.clone().concrete_prefix();
+        for (rn, ru) in [("shallow", 5u128), ("boundary", 7), ("deep", 45)] {
+            add(Tier::Quick, format!("{}.{}", rn, p.tag()), d, 400, 150, Box::new(t_liq(pc.clone(), ru)));
+            add(Tier::Quick, format!("{}.{}", rn, pc.clone().partial().tag()), d, 600, 150, Box::new(t_liq(pc.clone().partial(), ru)));
+            add(Tier::Quick, format!("{}.{}", rn, pc.clone().partial().oracle().tag()), d, 800, 150, Box::new(t_liq(pc.clone().partial().oracle(), ru)));
+        }
+        add(Tier::Quick, format!("shallow.{}", pc.clone().counter().tag()), d, 600, 150, Box::new(t_liq(pc.clone().counter(), 5)));
+        add(Tier::Quick, format!("shallow.{}", pc.clone().fees().tag()), d, 600, 150, Box::new(t_liq(pc.clone().fees(), 5)));
+        add(Tier::Quick, format!("shallow.{}", pc.clone().native().partial().tag()), d, 600, 150, Box::new(t_liq(pc.clone().native().partial(), 5)));
+        add(Tier::Quick, format!("deep.{}", pc.clone().native().tag()), d, 600, 150, Box::new(t_liq(pc.clone().native(), 45)));
+        add(Tier::Thorough, format!("shallow.{}", pc.clone().partial().counter().oracle().tag()), d, 3000, 1200, Box::new(t_liq(pc.clone().partial().counter().oracle(), 5)));
+        add(Tier::Thorough, format!("boundary.{}", pc.clone().partial().counter().tag()), d, 3000, 1200, Box::new(t_liq(pc.clone().partial().counter(), 7)));
+        add(Tier::Thorough, format!("deep.{}", pc.clone().partial().counter().tag()), d, 3000, 1200, Box::new(t_liq(pc.clone().partial().counter(), 45)));
+        add(Tier::Thorough, format!("sym.{}", p.clone().partial().tag()), d, 3000, 1200, Box::new(t_liq(p.clone().partial(), 6)));
+    }
+    v
+}
+
+/// C08 fault enumeration: the transaction(s) under test of each template with the n-th call to a
+/// contract / the bank module failing (one fault at a time)
+pub fn faults(seed: u64) -> Vec<Scenario> {
+    let prop = "C08";
+    let mut v: Vec<Scenario> = vec![];
+    let d = "fault injection: the n-th invocation of the named site during the transaction under test fails; if the fault fired the top-level call must return an error and (monitor) all raw storage and balances must be unchanged with no in-flight residue; amounts of the transaction under test symbolic (the message tree's shape depends on them)";
+    let cw20_sites: Vec<(&'static str, u64)> = vec![("vamm:execute", 1), ("vamm:execute", 2), ("cw20:execute", 1), ("cw20:execute", 2), ("cw20:execute", 3), ("cw20:execute", 4), ("insurance_fund:execute", 1), ("engine:reply", 1), ("engine:reply", 2), ("engine:reply", 3)];
+    let native_sites: Vec<(&'static str, u64)> = vec![("vamm:execute", 1), ("bank:execute", 1), ("bank:execute", 2), ("bank:execute", 3), ("insurance_fund:execute", 1), ("engine:reply", 1)];
+    for (site, n) in cw20_sites {
+        let tag = format!("{}#{}", site.replace(':', "-"), n);
+        for side in [Buy, Sell] {
+            let p = P::new(prop, side.clone(), seed).concrete_prefix().fees().fault(site, n);
+            let sn = if side == Buy { "long" } else { "short" };
+            let mut add = |tier: Tier, name: &str, f: Box<dyn Fn()>| v.push(sc(prop, tier, &format!("c08.fault.{}.{}.{}", name, sn, tag), d, 300, 90, f));
+            let tier = if side == Buy { Tier::Quick } else { Tier::Thorough };
+            add(tier, "open", Box::new(t_open(p.clone())));
+            add(tier, "opp", Box::new(t_open2(p.clone(), false)));
+            add(Tier::Thorough, "inc", Box::new(t_open2(p.clone(), true)));
+            add(tier, "close", Box::new(t_close(p.clone(), false)));
+            add(tier, "liq.shallow", Box::new(t_liq(p.clone(), 5)));
+            add(tier, "liq.deep.partial", Box::new(t_liq(p.clone().partial(), 45)));
+            add(Tier::Thorough, "liq.deep", Box::new(t_liq(p.clone(), 45)));
+            add(tier, "fund.close", Box::new(t_fund(p.clone(), 0)));
+            add(Tier::Thorough, "depwd", Box::new(t_depwd(p.clone())));
+        }
+    }
+    for (site, n) in native_sites {
+        let tag = format!("{}#{}", site.replace(':', "-"), n);
+        let p = P::new(prop, Buy, seed).concrete_prefix().native().fees().fault(site, n);
+        let mut add = |tier: Tier, name: &str, f: Box<dyn Fn()>| v.push(sc(prop, tier, &format!("c08.fault.{}.native.{}", name, tag), d, 300, 90, f));
+        add(Tier::Quick, "open", Box::new(t_open(p.clone())));
+        add(Tier::Quick, "close", Box::new(t_close(p.clone(), false)));
+        add(Tier::Quick, "liq.shallow", Box::new(t_liq(p.clone(), 5)));
+        add(Tier::Thorough, "depwd", Box::new(t_depwd(p.clone())));
+        add(Tier::Thorough, "fund.close", Box::new(t_fund(p.clone(), 0)));
+    }
     v
 }
